@@ -250,15 +250,18 @@ def check(case, res):
     res.crash(e)
     return
   tl = Timeline(flat)
-  if tl.final_screen != ():
-    raise HarnessError("generator: the stream does not end with a blank screen")
+  open_end = tl.final_screen != ()          # the file ends while a caption is displayed (profile switch open_end)
+  if open_end:
+    res.label("file-ends-with-caption-displayed")
+    if "open_end" not in case.get("profile", "open_end"):
+      raise HarnessError("generator: the stream does not end with a blank screen")
   paras = read_paragraphs(doc, res)
   tcname = "DF" if flat.df else "NDF"
   # -- timing clauses: exact frame multiple, not before the line's time code, inside the transmission window of a display change
   for q in paras:
     for which, v in (("begin", q.begin), ("end", q.end)):
       if v is None:
-        if which == "end":
+        if which == "end" and not open_end:
           res.fail("timing:open-ended-paragraph:" + q.style, "%s has no end although the stream ends with EDM\n%s" % (q.id, text))
         continue
       fr = Fraction(v) * rate
@@ -337,7 +340,7 @@ P_ROLL = g.profile(styles=("roll",))
 P_PAINT = g.profile(styles=("paint",))
 P_MIXED = g.profile(mix=True, max_caps=6)
 # labelled classes (asserted like the main ones unless stated in ASSUMPTIONS)
-P_CLASSES = g.profile(mix=True, undoubled=True, row_order=True, roll_base=True, roll_blank=True, pad_inside=True, paint_accumulate=True, mid_runs=True,
+P_CLASSES = g.profile(mix=True, undoubled=True, row_order=True, roll_base=True, roll_blank=True, open_end=True, pad_inside=True, paint_accumulate=True, mid_runs=True,
                       pop_leftover=True)
 # dedicated parts that keep exercising the triggers of the known findings
 P_C1 = g.profile(styles=("paint",), paint_c1=True, max_caps=4)
@@ -358,7 +361,7 @@ PARTS = {
   "mixed": Part("mixed", check, strategy=cases(P_MIXED), n=(800, 80000), shrinker=SHRINK, required_labels=("mode-switch",)),
   "classes": Part("classes", check, strategy=cases(P_CLASSES), n=(1200, 120000), shrinker=SHRINK,
                   required_labels=("undoubled-control", "roll:base-row-not-15", "pad-inside-displayed-row", "paint:accumulates-without-EDM",
-                                   "mid-row-run", "roll:blank-row", "channel-2-twin-of-previous-code", "pop:load-over-leftover", "pop:load-over-leftover:other-rows", "mode-switch")),
+                                   "mid-row-run", "roll:blank-row", "file-ends-with-caption-displayed", "channel-2-twin-of-previous-code", "pop:load-over-leftover", "pop:load-over-leftover:other-rows", "mode-switch")),
   "c1": Part("c1", check, strategy=cases(P_C1), n=(320, 16000), shrinker=SHRINK,
              required_labels=("paint:caption-below-earlier-paint-on-caption",)),
   "c2": Part("c2", check, strategy=cases(P_C2), n=(320, 16000), shrinker=SHRINK),
